@@ -19,7 +19,7 @@ pub fn prop() -> Prop {
         ],
         subs: vec![
             Sub::tape("primitives", 40, 240_000, 12_000_000, |d, cx| run(d, cx, 0)).with_fp(),
-            Sub::tape("primitives_large", 40, 1_500, 75_000, |d, cx| run(d, cx, 4)),
+            Sub::tape("primitives_large", 40, 3_000, 150_000, |d, cx| run(d, cx, 4)),
             Sub::tape("polylines", 40, 40_000, 2_000_000, |d, cx| run(d, cx, 1)),
             Sub::tape("images", 120, 50_000, 2_500_000, |d, cx| run(d, cx, 2)),
             Sub::tape("text", 300, 40_000, 2_000_000, |d, cx| run(d, cx, 3)),
@@ -57,6 +57,7 @@ fn check<C: ImgCol>(d: &mut Dec, cx: &mut Cx, kind: u32) -> Res {
     } else {
         (gen_item::<C>(d, kind, dom), kind)
     };
+    let item = item.placed(crate::gen::far_offset(d));
     // clip window: derived from the item's bounding box so that it usually cuts the drawable
     let bb = item.bounding_box();
     let win = {
